@@ -323,8 +323,13 @@ def check_growth(eng, res, G: Growth):
            rets[0] if rets else fi.node, r_ok, r_why)
     # other exits: exactly "no open descriptor left"
     for e_nid, e_kind, e_node, e_conds in other_exits:
+        from ..lits import lits
+
         txts = [src(flow.expand_ssa(c, cfg.node_of(c))) for c, _ in e_conds]
-        ok = len(e_conds) == 1 and e_conds[0][1] and "bond_descriptors) == 0" in txts[0].replace(" ", " ")
+        L = set()
+        for c, pol in e_conds:
+            L |= lits(flow.expand_ssa(c, cfg.node_of(c)), pol)
+        ok = len(L) == 1 and all(l[0] == "num" and l[2] == "==" and l[3] == 0 and "bond_descriptors" in l[1] and "len" in l[1] and l[1].startswith("1*") for l in L)
         res.ob("R-STOP-TEST", fi, f"other-exit:{e_kind}", "the only other exit is 'no open descriptor left'", e_node, ok, f"exit under {txts}")
 
 
